@@ -2,6 +2,7 @@
 corpus crate.  No expected values are computed here."""
 import os, json, random, hashlib, itertools
 import prim, render, stimuli
+from common import REPO
 
 K_ALL = render.FEATURES
 
@@ -614,7 +615,7 @@ edition = "2021"
 autobins = true
 
 [dependencies]
-enum-tools = { path = "/repo" }
+enum-tools = { path = "%(repo)s" }
 rt = { path = "%(rt)s" }
 
 [workspace]
@@ -642,8 +643,8 @@ def write_crate(pl, outdir, cases_per_bin=120, ctx_preludes=None):
     os.makedirs(os.path.join(outdir, "src", "bin"))
     os.makedirs(os.path.join(outdir, "scripts"))
     os.makedirs(os.path.join(outdir, ".cargo"))
-    open(os.path.join(outdir, "Cargo.toml"), "w").write(CARGO_TOML % {"rt": rt})
-    shutil.copy("/repo/Cargo.lock", os.path.join(outdir, "Cargo.lock"))
+    open(os.path.join(outdir, "Cargo.toml"), "w").write(CARGO_TOML % {"rt": rt, "repo": REPO})
+    shutil.copy(os.path.join(REPO, "Cargo.lock"), os.path.join(outdir, "Cargo.lock"))
     open(os.path.join(outdir, ".cargo", "config.toml"), "w").write(
         "[net]\noffline = true\n[build]\nrustflags = [\"--cfg\", \"enum_tools_verif\", \"--check-cfg\", \"cfg(enum_tools_verif)\", \"--cap-lints\", \"allow\"]\n")
     # bins: groups are never split
